@@ -261,8 +261,38 @@ func (e *Explorer) branch(c *Term) bool {
 	return e.choose("if", []*Term{c, mkNot(c)}, true) == 0
 }
 
+// concretizeRange enumerates the feasible values of t, known to lie in [lo, hi]
+// (signed). Small ranges are decided by one n-way choice without asking the solver for
+// models.
+func (e *Explorer) concretizeRange(t *Term, lo, hi int64, what string) int64 {
+	if t.isConst() {
+		return t.sval()
+	}
+	if iv := e.evalIv(t, 8); iv.ok && int64(iv.lo) >= lo && int64(iv.hi) <= hi && int64(iv.hi) >= 0 {
+		lo, hi = int64(iv.lo), int64(iv.hi)
+	}
+	if hi-lo < 0 || hi-lo > 96 {
+		return e.concretizeByModel(t, what)
+	}
+	conds := make([]*Term, hi-lo+1)
+	for v := lo; v <= hi; v++ {
+		conds[v-lo] = mkEq(t, mkBV(int(t.sort), uint64(v)))
+	}
+	return lo + int64(e.choose("value:"+what, conds, true))
+}
+
 // concretize enumerates the feasible values of t (bounded).
 func (e *Explorer) concretize(t *Term, what string) int64 {
+	if t.isConst() {
+		return t.sval()
+	}
+	if iv := e.evalIv(t, 10); iv.ok && iv.hi < 1<<62 && iv.hi-iv.lo <= 96 {
+		return e.concretizeRange(t, int64(iv.lo), int64(iv.hi), what)
+	}
+	return e.concretizeByModel(t, what)
+}
+
+func (e *Explorer) concretizeByModel(t *Term, what string) int64 {
 	if t.isConst() {
 		return t.sval()
 	}
